@@ -66,10 +66,15 @@ func (c *c01eth2) Genesis(context.Context, *eth2api.GenesisOpts) (*eth2api.Respo
 	return &eth2api.Response[*eth2v1.Genesis]{Data: &eth2v1.Genesis{GenesisTime: c.genesis}}, nil
 }
 
-func (c *c01eth2) Domain(_ context.Context, typ eth2p0.DomainType, _ eth2p0.Epoch) (eth2p0.Domain, error) {
+// Domain: as on a real chain the signing domain depends on the fork that is active in the epoch. The stub chain has one
+// fork boundary, at epoch c01forkEpoch (the duties of all scenarios lie in epoch 0, before it).
+func (c *c01eth2) Domain(_ context.Context, typ eth2p0.DomainType, epoch eth2p0.Epoch) (eth2p0.Domain, error) {
 	var d eth2p0.Domain
 	copy(d[:], typ[:])
 	d[31] = 0x77
+	if epoch >= c01forkEpoch {
+		d[30] = 0x01
+	}
 	return d, nil
 }
 
@@ -226,12 +231,24 @@ type c01script struct {
 	// broadcast and beacon-node broadcast run asynchronously and are retried until the duty's deadline, as in production
 	AggDB string `json:"aggsigdb,omitempty"`
 	Wire  string `json:"wire,omitempty"`
+	// duty-type dimension (zz_verif_c01b_test.go): Duty "" = attester; "proposer" (through consensus; Ver = block version/form);
+	// "sync", "exit", "registration", "randao" (no consensus: every validator client signs the variant Camps[node] of the object);
+	// with Byz >= 0 the validator client of node Byz is the adversary: it sends peer j (in index order) a partial signature made
+	// with its own share according to Plan[j] (see c01bPlanSet), before ("first") or after ("last") the honest partials are sent;
+	// Late >= 1: the validator client of node Late-1 signs only when the network went quiet for the first time
+	Duty  string `json:"duty,omitempty"`
+	Ver   string `json:"version,omitempty"`
+	Camps []int  `json:"camps,omitempty"`
+	Plan  []int  `json:"byz_plan,omitempty"`
+	Place string `json:"byz_placement,omitempty"`
+	Late  int    `json:"late,omitempty"`
 }
 
 const (
-	c01slot    = 3
-	c01commIdx = 2
-	c01valIdx  = 7
+	c01slot      = 3
+	c01commIdx   = 2
+	c01valIdx    = 7
+	c01forkEpoch = 1 // first epoch of the stub chain's second fork (another signing domain)
 )
 
 func c01attData(variant byte) eth2p0.AttestationData {
@@ -267,6 +284,10 @@ type c01node struct {
 	cand     eth2p0.AttestationData
 	world    *c01world
 	signedN  int
+	// other duty types
+	awaitProp func(ctx context.Context, slot uint64) (*eth2api.VersionedProposal, error)
+	propCand  *eth2api.VersionedProposal
+	retryer   *retry.Retryer[core.Duty]
 }
 
 // stub scheduler
@@ -286,6 +307,9 @@ func (w *c01world) attDuty(v c01val) *eth2v1.AttesterDuty {
 }
 
 func (n *c01node) defSet() core.DutyDefinitionSet {
+	if n.world.kind != "" {
+		return n.world.bDefSet()
+	}
 	out := core.DutyDefinitionSet{}
 	for _, v := range n.world.cl.vals[:n.world.nvals] {
 		out[v.corePK] = core.NewAttesterDefinition(n.world.attDuty(v))
@@ -309,6 +333,13 @@ type c01fetcher struct{ n *c01node }
 
 func (f c01fetcher) Fetch(ctx context.Context, duty core.Duty, defs core.DutyDefinitionSet) error {
 	set := core.UnsignedDataSet{}
+	if f.n.world.kind != "" {
+		var err error
+		if set, err = f.n.bFetch(defs); err != nil {
+			return err
+		}
+		defs = nil
+	}
 	for pk, d := range defs {
 		ad, _ := d.(core.AttesterDefinition)
 		data := f.n.cand
@@ -340,7 +371,8 @@ func (c01fetcher) RegisterAwaitAttData(func(ctx context.Context, slot uint64, co
 // stub validator API + validator client
 type c01vapi struct{ n *c01node }
 
-func (c01vapi) RegisterAwaitProposal(func(ctx context.Context, slot uint64) (*eth2api.VersionedProposal, error)) {
+func (v c01vapi) RegisterAwaitProposal(fn func(ctx context.Context, slot uint64) (*eth2api.VersionedProposal, error)) {
+	v.n.awaitProp = fn
 }
 func (v c01vapi) RegisterAwaitAttestation(fn func(ctx context.Context, slot, commIdx uint64) (*eth2p0.AttestationData, error)) {
 	v.n.awaitAtt = fn
@@ -374,7 +406,7 @@ func (w *c01world) signPartialFor(v c01val, share int, data eth2p0.AttestationDa
 	if err != nil {
 		return core.ParSignedData{}, err
 	}
-	sig, err := tbls.Sign(v.shares[share], sroot[:])
+	sig, err := c01sign(v.shares[share], sroot)
 	if err != nil {
 		return core.ParSignedData{}, err
 	}
@@ -439,6 +471,8 @@ func (a c01aggdb) Store(ctx context.Context, duty core.Duty, set core.SignedData
 }
 
 type c01world struct {
+	kind  string // c01script.Duty
+	sc    c01script
 	nvals int
 	att   string
 	cl    *c01cluster
@@ -448,6 +482,8 @@ type c01world struct {
 	emits []c01emit
 	t0    time.Time
 	log   []string
+	// calls of the real broadcaster into the beacon-node stub, by endpoint
+	bnCalls map[string]int
 }
 
 func (w *c01world) record(node int, where string, duty core.Duty, set core.SignedDataSet) {
@@ -462,7 +498,7 @@ func (w *c01world) record(node int, where string, duty core.Duty, set core.Signe
 						if sig, err := tblsconv.SigFromCore(d.Signature()); err == nil {
 							// verified under the GROUP key of the validator the object is published for
 							if gk, err := tblsconv.PubkeyFromCore(pk); err == nil {
-								e.valid = tbls.Verify(gk, sroot[:], sig) == nil
+								e.valid = c01verify(gk, sroot, sig)
 							}
 						}
 					}
@@ -471,6 +507,42 @@ func (w *c01world) record(node int, where string, duty core.Duty, set core.Signe
 		}
 		w.emits = append(w.emits, e)
 	}
+}
+
+// c01sign is the validator-client stubs' signing call: BLS signatures are deterministic, the stubs sign the same roots with
+// the same key shares in thousands of executions per process, so signatures are memoised.
+var c01signMemo = map[[64]byte]tbls.Signature{}
+
+func c01sign(key tbls.PrivateKey, sroot [32]byte) (tbls.Signature, error) {
+	var k [64]byte
+	copy(k[:32], key[:])
+	copy(k[32:], sroot[:])
+	if s, ok := c01signMemo[k]; ok {
+		return s, nil
+	}
+	s, err := tbls.Sign(key, sroot[:])
+	if err == nil {
+		c01signMemo[k] = s
+	}
+	return s, err
+}
+
+// c01verify is the oracle's signature check (the library's tbls.Verify, never charon's own signing helpers). The verdict is a
+// pure function of (key, root, signature); the same object is judged at Broadcast, at AggSigDB.Store and at the beacon node of
+// every node, so verdicts are memoised per process.
+var c01verifyMemo = map[[48 + 32 + 96]byte]bool{}
+
+func c01verify(pk tbls.PublicKey, sroot [32]byte, sig tbls.Signature) bool {
+	var k [48 + 32 + 96]byte
+	copy(k[:48], pk[:])
+	copy(k[48:80], sroot[:])
+	copy(k[80:], sig[:])
+	if v, ok := c01verifyMemo[k]; ok {
+		return v
+	}
+	v := tbls.Verify(pk, sroot[:], sig) == nil
+	c01verifyMemo[k] = v
+	return v
 }
 
 // recordBN judges what a node's broadcaster hands to its beacon node: every attestation is attributed to the validator it
@@ -506,7 +578,7 @@ func (w *c01world) recordBN(node int, atts []*eth2spec.VersionedAttestation) {
 			if root, err := data.HashTreeRoot(); err == nil && who != nil {
 				if sroot, err := signing.GetDataRoot(context.Background(), w.eth2, signing.DomainBeaconAttester, data.Target.Epoch, root); err == nil {
 					e.root, e.pubkey = sroot, who.corePK
-					e.valid = tbls.Verify(who.group, sroot[:], tbls.Signature(sigb)) == nil
+					e.valid = c01verify(who.group, sroot, tbls.Signature(sigb))
 				}
 			}
 		}
@@ -527,6 +599,7 @@ type c01exec struct {
 	trace    []string
 	devs     int
 	diverged bool
+	bnCalls  map[string]int
 }
 
 func c01run(t *testing.T, sc c01script) (ex c01exec) {
@@ -538,23 +611,38 @@ func c01run(t *testing.T, sc c01script) (ex c01exec) {
 	spec := c01getSpec(t)
 	synctest.Test(t, func(t *testing.T) {
 		ctx, cancelAll := context.WithCancel(context.Background())
-		w := &c01world{cl: cl, net: fakenet.New(), t0: time.Now(), nvals: max(sc.Vals, 1), att: sc.Att}
+		w := &c01world{cl: cl, net: fakenet.New(), t0: time.Now(), nvals: max(sc.Vals, 1), att: sc.Att, kind: sc.Duty, sc: sc}
 		w.eth2 = &c01eth2{spec: spec, genesis: time.Now().Add(-time.Duration(c01slot) * 12 * time.Second)}
 		duty := core.NewAttesterDuty(c01slot)
-		deadlineFunc := func(core.Duty) (time.Time, bool) { return w.t0.Add(time.Hour), true }
+		if w.kind != "" {
+			duty = w.bDuty()
+			w.nvals = w.bNVals()
+		}
+		deadlineFunc := func(d core.Duty) (time.Time, bool) {
+			if d.Type == core.DutyExit || d.Type == core.DutyBuilderRegistration {
+				return time.Time{}, false // as core.NewDutyDeadlineFunc: exits and registrations never expire
+			}
+			return w.t0.Add(time.Hour), true
+		}
 		gater := func(core.Duty) bool { return true }
 		for i := 0; i < sc.N; i++ {
 			nctx, nc := context.WithCancel(ctx)
 			n := &c01node{idx: i, ctx: nctx, cancel: nc, world: w}
+			variant := byte(0x10)
 			switch sc.Inputs {
 			case "equal":
-				n.cand = c01attData(0x10)
 			case "distinct":
-				n.cand = c01attData(0x10 + byte(i))
+				variant = 0x10 + byte(i)
 			default: // the leader of round 1 sees another head than everybody else
-				n.cand = c01attData(0x10)
-				if int64(i) == (int64(c01slot)+int64(core.DutyAttester)+1)%int64(sc.N) {
-					n.cand = c01attData(0x20)
+				if int64(i) == (int64(c01slot)+int64(duty.Type)+1)%int64(sc.N) {
+					variant = 0x20
+				}
+			}
+			n.cand = c01attData(variant)
+			if w.kind == c01kProposer {
+				var err error
+				if n.propCand, err = c01bProposal(sc.Ver, variant, cl.vals[0].valIdx); err != nil {
+					t.Fatalf("harness: %v", err)
 				}
 			}
 			w.nodes = append(w.nodes, n)
@@ -593,22 +681,42 @@ func c01run(t *testing.T, sc c01script) (ex c01exec) {
 			}
 			var wopts []core.WireOption
 			if sc.Wire == "retry" {
-				wopts = append(wopts, core.WithAsyncRetry(retry.New[core.Duty](deadlineFunc)))
+				n.retryer = retry.New[core.Duty](deadlineFunc)
+				wopts = append(wopts, core.WithAsyncRetry(n.retryer))
 			}
 			core.Wire(n, c01fetcher{n}, cons, ddb, c01vapi{n}, pdb, psx, agg, c01aggdb{adb, n}, c01bcast{n, bc}, wopts...)
 		}
 		// the duty is triggered on every node; its validator client starts waiting for the data to sign
 		start := func(n *c01node) {
+			if w.kind != "" && w.kind != c01kProposer {
+				// duty types without consensus: nothing is scheduled or fetched, the validator client submits on its own; the
+				// validator client of the Byzantine node is the adversary (its partial signatures are injected below)
+				if n.idx != sc.Byz && n.idx != sc.Late-1 {
+					go n.bVC(duty)
+				}
+				return
+			}
 			for _, s := range n.dutySub {
 				s := s
 				go func() { _ = s(n.ctx, duty, n.defSet()) }()
 			}
+			if w.kind == c01kProposer {
+				go n.bVC(duty)
+				return
+			}
 			go n.vc(duty)
+		}
+		if w.kind != "" && w.kind != c01kProposer && sc.Byz >= 0 && sc.Place == "first" {
+			ex.trace = append(ex.trace, w.bInjectPlan(duty)...)
 		}
 		for _, n := range w.nodes {
 			start(n)
 		}
 		synctest.Wait()
+		if w.kind != "" && w.kind != c01kProposer && sc.Byz >= 0 && sc.Place != "first" {
+			ex.trace = append(ex.trace, w.bInjectPlan(duty)...)
+		}
+		latePending := w.kind != "" && sc.Late >= 1
 		crashed := 0
 		f := (sc.N - 1) / 3
 		byzUsed := false
@@ -634,7 +742,12 @@ func c01run(t *testing.T, sc c01script) (ex c01exec) {
 					}
 				}
 			}
-			if sc.Byz >= 0 && !byzUsed {
+			if sc.Byz >= 0 && !byzUsed && w.kind == c01kProposer {
+				for _, b := range w.bByzMenu() {
+					menu = append(menu, act{b.kind, b.arg})
+				}
+			}
+			if sc.Byz >= 0 && !byzUsed && w.kind == "" {
 				// the equivocating node additionally sends a partial signature, made with its own share, over other data
 				menu = append(menu, act{"byz-all", 0}, act{"byz-one", 0}, act{"byz-badsig", 0}, act{"byz-relabel", 0}, act{"byz-relabel", 1},
 					act{"byz-unsigned", 0}, act{"byz-unsigned", 1}, act{"byz-unsigned", 2})
@@ -657,7 +770,12 @@ func c01run(t *testing.T, sc c01script) (ex c01exec) {
 			a := menu[c]
 			switch a.kind {
 			case "default":
-				if len(pend) == 0 {
+				if len(pend) == 0 && latePending {
+					// the late validator client signs now (the network went quiet for the first time)
+					latePending = false
+					go w.nodes[sc.Late-1].bVC(duty)
+					ex.trace = append(ex.trace, fmt.Sprintf("LATE-VC node%d", sc.Late-1))
+				} else if len(pend) == 0 {
 					// nothing in flight: let virtual time pass (round timers); stop when nothing happens any more
 					before := len(w.emits)
 					time.Sleep(1500 * time.Millisecond)
@@ -688,6 +806,8 @@ func c01run(t *testing.T, sc c01script) (ex c01exec) {
 				crashed++
 				w.net.Down[cl.peerIDs[a.arg]] = true
 				w.nodes[a.arg].cancel()
+				// the process dies: its asynchronous retried calls (which run on the retryer's own context) die with it
+				w.nodes[a.arg].stopRetryer(ctx)
 				ex.trace = append(ex.trace, fmt.Sprintf("CRASH node%d", a.arg))
 			case "byz-relabel":
 				// one Byzantine strategy (a single deviation): the node sends a genuine partial signature made with its own share
@@ -762,6 +882,9 @@ func c01run(t *testing.T, sc c01script) (ex c01exec) {
 					}
 				}
 				ex.trace = append(ex.trace, fmt.Sprintf("BYZ genuine-signature-other-unsigned-fields(%d)", a.arg))
+			case "b-own", "b-other", "b-badsig", "b-relabel", "b-unsigned":
+				byzUsed = true
+				ex.trace = append(ex.trace, w.bByzAct(duty, c01bact{a.kind, a.arg}))
 			case "byz-all", "byz-one", "byz-badsig":
 				byzUsed = true
 				par, err := w.signPartial(sc.Byz+1, c01attData(0x66))
@@ -797,6 +920,11 @@ func c01run(t *testing.T, sc c01script) (ex c01exec) {
 			}
 		}
 		ex.emits = w.emits
+		ex.bnCalls = w.bnCalls
+		for _, n := range w.nodes {
+			n.stopRetryer(ctx) // as app.go does on shutdown: ends the asynchronous calls that are still being retried
+		}
+		synctest.Wait()
 		cancelAll()
 		synctest.Wait()
 		// stream handlers run on contexts of their own (receive timeout): let them time out before the bubble ends
@@ -836,9 +964,12 @@ func c01pkt(verb string, w *c01world, p *fakenet.Packet) string {
 // node sent a genuine partial signature inside an object with other unsigned fields is classified by that cause.
 func c01check(ex c01exec) (sigs, descs []string) {
 	sigs, descs = c01checkEmits(ex.emits)
-	byzUnsigned := false
+	byzUnsigned, cause := false, "peer-chosen-unsigned-attestation-fields"
 	for _, l := range ex.trace {
 		byzUnsigned = byzUnsigned || strings.HasPrefix(l, "BYZ genuine-signature-other-unsigned-fields")
+		if strings.HasPrefix(l, "BYZ genuine-signature-other-unsigned-fields(sync-message") {
+			cause = "peer-chosen-unsigned-sync-message-fields"
+		}
 	}
 	if !byzUnsigned || len(sigs) == 0 {
 		return
@@ -856,7 +987,7 @@ func c01check(ex c01exec) (sigs, descs []string) {
 	}
 	for i, s := range sigs {
 		if !has[s] {
-			sigs[i] = s + " cause=peer-chosen-unsigned-attestation-fields"
+			sigs[i] = s + " cause=" + cause
 		}
 	}
 	return
@@ -899,18 +1030,42 @@ func TestVerifC01(t *testing.T) {
 			return ex
 		}
 		sigs, descs := c01check(ex)
-		bn, an := 0, 0
+		bn, an, bnn := 0, 0, 0
+		kind := sc.Duty
+		if kind == "" {
+			kind = "attester"
+		}
+		roots := map[[32]byte]bool{} // distinct signing roots emitted for the first validator of the duty
 		for _, e := range ex.emits {
+			if e.pubkey == c01newCluster(t, sc.N).vals[0].corePK {
+				roots[e.root] = true
+			}
 			switch e.where {
 			case "broadcast":
 				bn++
 			case "beacon-node":
-				r.Count("objects_submitted_to_beacon_node", 1)
+				bnn++
 			default:
 				an++
 			}
 		}
+		r.Count("objects_submitted_to_beacon_node", bnn)
 		cls := fmt.Sprintf("n=%d:%s:v=%d%s%s%s:devs=%d:broadcasts=%d", sc.N, sc.Inputs, max(sc.Vals, 1), sc.Att, sc.AggDB, sc.Wire, ex.devs, bn)
+		if sc.Duty != "" {
+			// duty-type dimension: per type what reached the beacon stub / Broadcast / AggSigDB.Store, and how the camp scenarios ended
+			cls = fmt.Sprintf("%s:%s%s:n=%d:%s:byz=%d:camps=%v:plan=%v%s:late=%d:%s%s:devs=%d:broadcasts=%d:roots=%d", sc.Duty, sc.Ver, "", sc.N, sc.Inputs, sc.Byz, sc.Camps, sc.Plan, sc.Place, sc.Late, sc.AggDB, sc.Wire, ex.devs, bn, len(roots))
+			r.Count("executions:"+kind, 1)
+			r.Count("wire_packets_and_time_steps:"+kind, len(ex.steps))
+			r.Count("beacon_node_objects:"+kind, bnn)
+			r.Count("broadcast_objects:"+kind, bn)
+			r.Count("aggsigdb_objects:"+kind, an)
+			for ep, c := range ex.bnCalls {
+				r.Count("beacon_node_calls:"+ep, c)
+			}
+			if len(sc.Camps) > 0 {
+				r.Count(fmt.Sprintf("executions_by_distinct_signing_roots_emitted:%s:%d", kind, len(roots)), 1)
+			}
+		}
 		r.Eval(cls)
 		r.Outcome(cls)
 		r.Steps(len(ex.steps))
@@ -926,6 +1081,10 @@ func TestVerifC01(t *testing.T) {
 			}
 			if !ok {
 				r.Unconfirmed(sig)
+				continue
+			}
+			if sc.Duty != "" {
+				r.Violation(fmt.Sprintf("%s duty=%s n=%d", sig, sc.Duty, sc.N), fmt.Sprintf("%s [duty=%s %s n=%d inputs=%s byz=%d camps=%v byz-plan=%v %s late=%d %s%s schedule: %s]", descs[i], sc.Duty, sc.Ver, sc.N, sc.Inputs, sc.Byz, sc.Camps, sc.Plan, sc.Place, sc.Late, sc.AggDB, sc.Wire, strings.Join(ex.trace, " | ")), sc)
 				continue
 			}
 			r.Violation(fmt.Sprintf("%s n=%d", sig, sc.N), fmt.Sprintf("%s [n=%d inputs=%s byz=%d validators=%d %s schedule: %s]", descs[i], sc.N, sc.Inputs, sc.Byz, max(sc.Vals, 1), sc.Att, strings.Join(ex.trace, " | ")), sc)
@@ -965,8 +1124,46 @@ func TestVerifC01(t *testing.T) {
 			{n: 4, inputs: "distinct", byz: -1, maxDev: 2, vals: 1, aggdb: "v1", wire: "retry"}, {n: 4, inputs: "equal", byz: 1, maxDev: 2, vals: 2, aggdb: "v1", wire: "retry"},
 			{n: 3, inputs: "distinct", byz: -1, maxDev: 2, vals: 1, att: "electra-noidx", aggdb: "v1", wire: "retry"}, {n: 4, inputs: "leader-differs", byz: 2, maxDev: 2, vals: 1, wire: "retry"}, {n: 4, inputs: "equal", byz: 0, maxDev: 2, vals: 1, aggdb: "v1"}}
 	}
-	sampled := 0
+	// order: the complete camp x plan products of the duty types without consensus (one execution per scenario, cheap), the
+	// attester configurations, then the proposer configurations and the selected scenarios with one more deviation
+	products, deeper := c01bScripts(th)
+	var scripts []c01script
 	for _, c := range cfgs {
+		scripts = append(scripts, c01script{N: c.n, Inputs: c.inputs, Byz: c.byz, MaxDev: c.maxDev, Vals: c.vals, Att: c.att, AggDB: c.aggdb, Wire: c.wire})
+	}
+	scripts = append(scripts, deeper...)
+	sampled := 0
+	sampledKind := map[string]bool{}
+	for _, base := range products {
+		// a scenario of a complete product: sharded by scenario (quick: the one execution without deviation; thorough: all
+		// executions with <= 1 deviation, in the shard that owns the scenario)
+		if !r.Mine() {
+			continue
+		}
+		var rec func(prefix []int, devs int)
+		rec = func(prefix []int, devs int) {
+			if r.Expired() {
+				return
+			}
+			sc := base
+			sc.Choices = prefix
+			ex := judge(sc)
+			if !sampledKind[base.Duty] && base.Byz >= 0 && devs == 0 {
+				sampledKind[base.Duty] = true
+				r.Sample(map[string]any{"duty": base.Duty, "n": base.N, "camps": base.Camps, "byz_plan": base.Plan, "placement": base.Place, "schedule": ex.trace, "emitted": len(ex.emits)})
+			}
+			if devs >= base.MaxDev || ex.diverged {
+				return
+			}
+			for i := len(prefix); i < len(ex.steps); i++ {
+				for alt := 1; alt < ex.steps[i].menu; alt++ {
+					rec(append(append([]int{}, ex.choices[:i]...), alt), devs+1)
+				}
+			}
+		}
+		rec(nil, 0)
+	}
+	for _, base := range scripts {
 		// DFS over deviation placements (CHESS-style: replay the prefix, defaults afterwards)
 		var rec func(prefix []int, devs int)
 		unit := 0
@@ -974,13 +1171,14 @@ func TestVerifC01(t *testing.T) {
 			if r.Expired() {
 				return
 			}
-			sc := c01script{N: c.n, Inputs: c.inputs, Byz: c.byz, Choices: prefix, MaxDev: c.maxDev, Vals: c.vals, Att: c.att, AggDB: c.aggdb, Wire: c.wire}
+			sc := base
+			sc.Choices = prefix
 			ex := judge(sc)
 			if sampled < 2 && devs == 1 {
 				sampled++
-				r.Sample(map[string]any{"n": c.n, "inputs": c.inputs, "byz": c.byz, "schedule": ex.trace})
+				r.Sample(map[string]any{"n": base.N, "inputs": base.Inputs, "byz": base.Byz, "schedule": ex.trace})
 			}
-			if devs >= c.maxDev || ex.diverged {
+			if devs >= base.MaxDev || ex.diverged {
 				return
 			}
 			for i := len(prefix); i < len(ex.steps); i++ {
